@@ -513,7 +513,7 @@ func genScenario(s *simrt.Sim) *scen {
 					// right token, wrong scheme
 					u := sc.users[0]
 					t.name, t.pass, t.kind = u.name, u.pass, "scheme"
-					t.scheme = util.Pick(s, []string{"Bearer", "Digest", "Basi", "Basicc"})
+					t.scheme = util.Pick(s, []string{"Bearer", "Digest", "Basi", "Basicc", "Basis", "Token"})
 				}
 			} else if strings.ContainsRune(t.name, ':') {
 				// the repository client refuses user-ids with a colon at construction time
